@@ -13,9 +13,11 @@ out-of-equilibrium moments {zero, D00, D02, D20, D11, all}.  The real
 Eliminating v with T30 = c1 gives Eq.(20) of arXiv:2204.13120, F(T) = 1/2 phi'^2 - V - w/2 + 1/2 sqrt(4 s1^2 + w^2) - s2
 with s1 = c1 - T30_out, s2 = c2 - T33_out; T33 == c2 is F(T) == 0.
 
-Two sections:
+Three sections:
   boundaries : one case per (potential, v_w): sign conventions of c1 / velocityMid, admissibility of the matching
   profile    : one case per (potential, M, v_w, widths, offsets); the six moment variants are looped inside
+  reuse      : all ordered pairs (previous wall -> judged wall) on ONE EOM object without a grid update in between: the judged
+               profile is held to the same pointwise relations (a result that depends on what the object solved before fails them)
 """
 from __future__ import annotations
 
@@ -124,6 +126,19 @@ def profile_cases(tier: str) -> list[dict]:
                             continue  # quick: the finer grid only for the unit-width shapes (3 offsets each)
                         out.append(dict(pot=pot, M=M, vw=vw, cls=cls, widths=w, offsets=o,
                                         id=f"{pot},M={M},vw={vw:g},w={_fl(w)},o={_fl(o)}"))
+    return out
+
+
+def reuse_cases(tier: str) -> list[dict]:
+    """All ordered pairs (previous wall -> judged wall) over one velocity per branch (thorough: over all eight velocities), unit
+    wall shape, M = 20; the judged profile runs with the moment variants D00 and all (the previous call used 'all')."""
+    out = []
+    for pot, spec in POTS.items():
+        vws = [(cls, v) for cls, vs in spec["vw"].items() for v in (vs if tier == "thorough" else vs[1:2])]
+        nf = _nf(pot)
+        for (clsA, vA), (clsB, vB) in itertools.permutations(vws, 2):
+            out.append(dict(pot=pot, M=MS[0], vw=vB, cls=clsB, pre_vw=vA, widths=[1.0] * nf, offsets=[0.0] * nf, deltas=["D00", "all"],
+                            id=f"{pot},M={MS[0]},previous-vw={vA:g},vw={vB:g}"))
     return out
 
 
@@ -448,6 +463,19 @@ def case_profile(p: dict) -> dict:
     rtol, xtol = eom.errTol / 10, 1e-10  # what findPlasmaProfilePoint passes to root_scalar
 
     particle = _particle()
+    if p.get("pre_vw") is not None:
+        # section 'reuse': the SAME EOM object has just solved the profile of ANOTHER wall (other velocity, boundary constants and
+        # frame velocity, non-zero moments) on this grid, and _updateGrid is not called again before the judged wall: the judged
+        # profile must depend on its own arguments only (the relations below are the property's own, not a comparison of objects)
+        try:
+            bcA = _boundaries(p["pot"], p["pre_vw"])
+            eom.particles = [particle]
+            dA, _ = _deltas(eom, "all", Tn)
+            eom.findPlasmaProfile(bcA["c1"], bcA["c2"], bcA["vmid"], fields, dfields, dA, bcA["Tp"], bcA["Tm"])
+            r.tag("reuse-after-" + _measured_class(am, spec, bcA), f"reuse-{_measured_class(am, spec, bcA)}->{cls}")
+        except Exception as e:
+            r.tag("reuse-previous-call-raised")
+            r.detail["pre_error"] = repr(e)[:200]
     good = 0
     far_tail = 0.0
     for which in p.get("deltas", DELTAS):
@@ -547,7 +575,7 @@ def case_profile(p: dict) -> dict:
     return r.result(nontrivial=(good > 0 and cls == p["cls"]))
 
 
-SECTIONS = {"boundaries": (boundary_cases, case_boundaries), "profile": (profile_cases, case_profile)}
+SECTIONS = {"boundaries": (boundary_cases, case_boundaries), "profile": (profile_cases, case_profile), "reuse": (reuse_cases, case_profile)}
 
 
 def run(ctx) -> None:
@@ -573,6 +601,8 @@ def run(ctx) -> None:
         ctx.note("max_oracle_predicted_tail_displacement_rel", max(tails) if tails else None)
         ctx.note("profiles_per_case", len(DELTAS))
         ctx.note("shapes_per_potential", {pot: len(shapes(pot, ctx.tier)) for pot in POTS})
+    if not ctx.only or ctx.only == "reuse":
+        ctx.run_lattice("reuse", reuse_cases(ctx.tier), case_profile, timeout=600)
     ctx.exhaustive = False
     ctx.note("lattice", dict(potentials=list(POTS), vw={k: v["vw"] for k, v in POTS.items()}, M=list(MS), widths=list(WIDTHS),
                              offsets=list(OFFSETS), deltas=list(DELTAS), delta_eps=DELTA_EPS))
